@@ -339,10 +339,87 @@ def gen_flags():
     return "\n".join(out) + "\n"
 
 
+def fn_text(src, name):
+    m = re.search(r"(?:async )?fn %s\b" % re.escape(name), src)
+    if not m:
+        raise Unsupported("fn %s not found" % name)
+    i = src.index("{", src.index(")", m.end()))
+    # skip to the body's opening brace: first "{" after the signature's return type
+    depth = 0
+    j = m.end()
+    # find the brace that opens the body: the first "{" at parenthesis depth 0 after the parameter list
+    par = 0
+    while True:
+        ch = src[j]
+        if ch == "(":
+            par += 1
+        elif ch == ")":
+            par -= 1
+        elif ch == "{" and par == 0:
+            break
+        j += 1
+    i = j
+    depth = 1
+    j = i + 1
+    while depth:
+        if src[j] == "{":
+            depth += 1
+        elif src[j] == "}":
+            depth -= 1
+        j += 1
+    return src[i:j]
+
+
+def filter_keys(body, coll, method, nth=0):
+    """keys of the doc! filter of the nth call `<coll>.<method>(doc! { ... }` in a function body"""
+    ms = list(re.finditer(r"%s\s*\.\s*%s\(\s*doc!\s*\{([^}]*)\}" % (coll, method), body))
+    if len(ms) <= nth:
+        raise Unsupported("call %s.%s #%d not found" % (coll, method, nth))
+    keys = re.findall(r'"(\w+)"\s*:', ms[nth].group(1))
+    out = []
+    for k in keys:
+        if k == "username":
+            out.append("FUser")
+        elif k == "name":
+            out.append("FName")
+        else:
+            raise Unsupported("unexpected filter key %s" % k)
+    return out
+
+
+def gen_filters():
+    adf = open(os.path.join(REPO, "server/src/adf.rs")).read()
+    usr = open(os.path.join(REPO, "server/src/user.rs")).read()
+    sites = [
+        ("ft_add_exists", filter_keys(fn_text(adf, "adf_problem_exists"), "adf_coll", "find_one")),
+        ("ft_add_complete", filter_keys(fn_text(adf, "add_adf_problem"), "adf_coll", "update_one")),
+        ("ft_solve_find", filter_keys(fn_text(adf, "solve_adf_problem"), "adf_coll", "find_one")),
+        ("ft_solve_complete", filter_keys(fn_text(adf, "solve_adf_problem"), "adf_coll", "update_one")),
+        ("ft_get_find", filter_keys(fn_text(adf, "get_adf_problem"), "adf_coll", "find_one")),
+        ("ft_delete_one", filter_keys(fn_text(adf, "delete_adf_problem"), "adf_coll", "delete_one")),
+        ("ft_list_find", filter_keys(fn_text(adf, "get_adf_problems_for_user"), "adf_coll", "find")),
+        ("ft_delacc_many", filter_keys(fn_text(usr, "delete_account"), "adf_coll", "delete_many")),
+        ("ft_update_many", filter_keys(fn_text(usr, "update_user"), "adf_coll", "update_many")),
+    ]
+    # every users-collection filter must be exactly {"username": ...}
+    for fn, meth, n in (("username_exists", "find_one", 0), ("login", "find_one", 0), ("logout", "find_one", 0), ("user_info", "find_one", 0),
+                        ("delete_account", "delete_one", 0), ("update_user", "replace_one", 0)):
+        if filter_keys(fn_text(usr, fn), "user_coll", meth, n) != ["FUser"]:
+            raise Unsupported("users filter of %s" % fn)
+    # is the running entry of a task removed when the task panics?  (a guard object dropped on unwind)
+    guard = "true" if re.search(r"impl\s+Drop\s+for\s+\w+", adf) and adf.count("RunningGuard") >= 3 else "false"
+    out = ["(* GENERATED by tools/translate.py from server/src/adf.rs and server/src/user.rs - do not edit *)",
+           "From Coq Require Import List.", "From ADF Require Import Server.Model.", "Import ListNotations.", "",
+           "Definition g_ftable : ftable :=", "  mkFT " + " ".join("[%s]" % "; ".join(k) for _, k in sites) + ".",
+           "(* " + ", ".join("%s = %s" % (n, k) for n, k in sites) + " *)",
+           "Definition g_remove_on_panic : bool := %s." % guard]
+    return "\n".join(out) + "\n"
+
+
 def main():
     os.makedirs(OUT, exist_ok=True)
     rc = 0
-    for name, fn in (("GenLeaf.v", gen_leaf), ("GenFeatures.v", gen_features), ("GenFlags.v", gen_flags)):
+    for name, fn in (("GenLeaf.v", gen_leaf), ("GenFeatures.v", gen_features), ("GenFlags.v", gen_flags), ("GenFilters.v", gen_filters)):
         try:
             txt = fn()
         except Unsupported as e:
